@@ -373,6 +373,8 @@ static void longrun(int A)
 
 /* the C++ hash / XOF objects: copy construction, assignment over a used object and self-assignment in the middle of a message */
 void cpp_xof_copy(int a, const unsigned char *m, size_t n, unsigned char *out, size_t outlen, int mode);
+void cpp_hash_chunks(int a, const unsigned char *m, size_t n, size_t s1, size_t s2, int form, unsigned char *out);
+void cpp_xof_chunks(int a, const unsigned char *m, size_t n, size_t s1, size_t s2, int form, unsigned char *out);
 void cpp_hash_copy(int a, const unsigned char *m, size_t n, unsigned char *out, int mode);
 static void cppcopy(void)
 {
@@ -383,6 +385,14 @@ static void cppcopy(void)
         ref_hash(A, MSG, n, exp); cpp_hash_copy(A, MSG, n, got, mode); hx_stat("evaluations", 1); hx_stat("transitions", 1);
         if (memcmp(got, exp, 32)) { snprintf(kb, sizeof kb, "chunking:cpp:hash%s", A ? "a" : ""); hx_fail(kb, "%s object in the middle of a %zu-byte message does not continue like the original", mn[mode], n); }
     }
+    /* chunked input through every overload of update / absorb (pointer+length, byte_array, std::string), every pair of cut points; the data holds NUL and high bytes */
+    { uint8_t data[24]; for (int i = 0; i < 24; i++) data[i] = (uint8_t)((i % 3 == 1) ? 0 : (i % 5 == 2) ? 0x80 + i : MSG[i]);
+      for (int A = 0; A < 2; A++) for (size_t n = 0; n <= 24; n += (n < 18 ? 3 : 1)) for (size_t s1 = 0; s1 <= n; s1++) for (size_t s2 = s1; s2 <= n; s2++) for (int form = 0; form < 3; form++) {
+        ref_hash(A, data, n, exp); cpp_hash_chunks(A, data, n, s1, s2, form, got); hx_stat("evaluations", 2); hx_stat("transitions", 2);
+        if (memcmp(got, exp, 32)) { snprintf(kb, sizeof kb, "chunking:cpp:hash%s", A ? "a" : ""); hx_fail(kb, "update overload %d: %zu bytes cut at %zu and %zu differ from the single-call digest", form, n, s1, s2); }
+        ref_xof(A, data, n, exp, 32); cpp_xof_chunks(A, data, n, s1, s2, form, got);
+        if (memcmp(got, exp, 32)) { snprintf(kb, sizeof kb, "chunking:cpp:xof%s", A ? "a" : ""); hx_fail(kb, "absorb / squeeze overload %d: %zu bytes cut at %zu and %zu differ from the single-call result", form, n, s1, s2); }
+      } }
     hx_stat("states", 1); hx_stat("traces_validated", 1);
     hx_sample("C++ hash/hasha/xof/xofa objects: copy construction, assignment over a used object, self-assignment at the midpoint of messages of 0..40 bytes");
 }
